@@ -45,6 +45,9 @@ TEXT = {
     # rip-relative operand followed by an immediate: the displacement is not the last field of the instruction
     "ripimm": {"x64-intel": "mov dword ptr [rip+{0}], 5", "x64-att": "movl $5, {0}(%rip)"},
     "ripimm8": {"x64-intel": "cmp byte ptr [rip+{0}+8], 1", "x64-att": "cmpb $1, {0}+8(%rip)"},
+    # ARM64 relocation specifier, alone and combined with an addend
+    "lo12": {"arm64": "add x1, x0, :lo12:{0}"},
+    "lo12add": {"arm64": "ldr x2, [x0, :lo12:{0}+8]"},
     "byte": {"*": ".byte 7"},
     "word": {"x64-intel": ".quad {0}+8", "x64-att": ".quad {0}+8", "ia32": ".long {0}+8", "arm64": ".quad {0}+8"},
     "zero": {"*": ".zero 3"},
@@ -55,10 +58,10 @@ TEXT = {
 }
 MNEMONIC = {"o": {"mov", "add"}, "o2": {"xor", "mov"}, "jmp": {"jmp", "b"}, "jcc": {"jne", "b.ne"}, "call": {"call", "bl"},
             "ret": {"ret"}, "ijmp": {"jmp", "br"}, "icall": {"call", "blr"}, "lea": {"lea", "mov", "adrp"},
-            "ripimm": {"mov"}, "ripimm8": {"cmp"}}
+            "ripimm": {"mov"}, "ripimm8": {"cmp"}, "lo12": {"add"}, "lo12add": {"ldr"}}
 TRANSFERS = ("jmp", "jcc", "call", "ret", "ijmp", "icall")
 CHUNKS = {"string": 2}  # .string appends the characters and the terminating NUL separately
-CODE = ("o", "o2", "lea", "ripimm", "ripimm8") + TRANSFERS
+CODE = ("o", "o2", "lea", "ripimm", "ripimm8", "lo12", "lo12add") + TRANSFERS
 DATA = ("byte", "word", "zero", "string", "uleb", "ascii", "nul")
 TYPED = ("string", "uleb", "ascii", "nul")
 BLOCK_TYPE = {"string": "string", "ascii": "ascii", "nul": "ascii", "uleb": "uleb128"}
@@ -377,7 +380,7 @@ def h_assemble(eng, target, prog, pie, trivially_unreachable, split_at=None):
             n = n + lens[ci]
             real += len(rec.chunks[ci][2])
             ci += 1
-        if kind in ("jmp", "jcc", "call", "lea", "word", "ripimm", "ripimm8"):
+        if kind in ("jmp", "jcc", "call", "lea", "word", "ripimm", "ripimm8", "lo12", "lo12add"):
             want_n += 1
             hits = [(k, e) for k, e in exprs.items() if eng.must(And(k >= pos, k < pos + real))]
             eng.check(len(hits) == 1, "C12 %s %s: %d symbolic expressions inside the instruction" % (kind, arg, len(hits)))
@@ -386,12 +389,18 @@ def h_assemble(eng, target, prog, pie, trivially_unreachable, split_at=None):
             want_sym = local.get(name) or msyms.get(arg)
             eng.check(isinstance(e, gtirb.SymAddrConst) and e.symbol is want_sym,
                       "C12/C13 operand of %s %s does not refer (by identity) to the expected symbol object" % (kind, arg))
-            eng.check(e.offset == (8 if kind in ("word", "ripimm8") else 0), "C12 operand addend of %s %s is %s" % (kind, arg, e.offset))
+            eng.check(e.offset == (8 if kind in ("word", "ripimm8", "lo12add") else 0), "C12 operand addend of %s %s is %s" % (kind, arg, e.offset))
             is_ext = arg == "ext"
             if isa in (gtirb.Module.ISA.X64, gtirb.Module.ISA.IA32):
                 want_attrs = {A_.PLT} if (pie and is_ext and kind in ("jmp", "jcc", "call")) else set()
                 eng.check(e.attributes == want_attrs, "C12 operand attributes of %s %s: %s, expected %s" % (
                     kind, arg, sorted(map(str, e.attributes)), sorted(map(str, want_attrs))))
+            if kind in ("lo12", "lo12add"):
+                eng.check(e.attributes == {A_.LO12}, "C12 operand attributes of %s %s: %s, expected LO12" % (
+                    kind, arg, sorted(map(str, e.attributes))))
+            elif target == "arm64":
+                eng.check(e.attributes == set(), "C12 operand attributes of %s %s: %s, expected none" % (
+                    kind, arg, sorted(map(str, e.attributes))))
             ok_sizes = (8, 4) if kind == "word" else ((1, 2, 3, 4, 8) if target == "arm64" else (1, 2, 4, 8))
             eng.check(sizes.get(k) in ok_sizes, "C12 recorded size of the operand of %s: %s" % (kind, sizes.get(k)))
             if kind == "word":
@@ -604,6 +613,7 @@ PROGRAMS = {
     "rip-imm": [tok("ripimm", "obj"), tok("o"), tok("ripimm8", "ext"), tok("ripimm", "ext"), tok("ripimm8", "obj"), tok("ret")],
     "ascii-nul": [tok("o"), tok("ret"), tok("ascii"), tok("nul"), tok("label", "s2"), tok("ascii"), tok("byte"), tok("nul"), tok("string")],
     "temp": [tok("label", ".Lt"), tok("o"), tok("jcc", ".Lt"), tok("jmp", ".Lu"), tok("label", ".Lu"), tok("o")],
+    "arm-reloc": [tok("lo12", "obj"), tok("o"), tok("lo12add", "obj"), tok("lea", "obj"), tok("lo12add", "ext"), tok("lo12", "ext"), tok("ret")],
 }
 
 
@@ -653,6 +663,8 @@ def make_check_C12(tier):
             if target == "arm64" and pname in ("lea-word",):
                 continue
             if pname == "rip-imm" and not target.startswith("x64"):
+                continue
+            if pname == "arm-reloc" and target != "arm64":
                 continue
             for pie in ((True,) if tier == "quick" and pname not in ("jmp-ext", "calls") else (True, False)):
                 for tu in (False, True):
